@@ -69,7 +69,7 @@ Proof.
   - destruct db as [|k0 db']; [reflexivity|].
     apply gseek_nil in E. rewrite Forall_forall in E.
     assert (ltr k0 b = true) as H by (apply E; apply in_rev; rewrite rev_involutive; now left).
-    unfold ltr in H. now rewrite (ltb_leb _ _ H).
+    unfold ltr in H. now rewrite H.
   - unfold ltr. now rewrite leb_negb_ltb.
 Qed.
 
